@@ -424,14 +424,34 @@ def run(ctx):
     bad_holds = sorted(set(res["holds"]))
     diag = {}
     if bad_holds:
-        pick = bad_holds[:40]
-        d_out = core.coq_eval(ID, IMPORTS + "\n" + extra_defs,
-                              [f"diag_C07 (fst {terms[i]}) (snd {terms[i]})" for i in pick], tag="diag")
-        for i, txt in zip(pick, d_out):
-            m = re.match(r"\(\s*(true|false)\s*,\s*\[(.*)\]\s*\)", txt, re.S)
-            ffmt_ok = m.group(1) == "true" if m else None
-            rows_bad = [(int(a), b == "true") for a, b in re.findall(r"\((\d+)\s*,\s*(true|false)\)", m.group(2))] if m else []
-            diag[i] = (ffmt_ok, rows_bad)
+        # diagnose a selection that is diverse over the case families (at most 240 cases)
+        by_fam: dict[str, list[int]] = {}
+        for i in bad_holds:
+            by_fam.setdefault(cases[i]["src"], []).append(i)
+        pick = []
+        for k in range(max(len(v) for v in by_fam.values())):
+            for fam in sorted(by_fam):
+                if k < len(by_fam[fam]) and len(pick) < 240:
+                    pick.append(by_fam[fam][k])
+        chunks = [pick[k:k + 40] for k in range(0, len(pick), 40)]
+
+        def diag_chunk(job):
+            k, chunk = job
+            return core.coq_eval(ID, IMPORTS + "\n" + extra_defs,
+                                 [f"diag_C07 (fst {terms[i]}) (snd {terms[i]})" for i in chunk], tag=f"diag{k}")
+        from concurrent.futures import ThreadPoolExecutor
+        with ThreadPoolExecutor(max_workers=8) as ex:
+            d_outs = list(ex.map(diag_chunk, enumerate(chunks)))
+        for chunk, d_out in zip(chunks, d_outs):
+            for i, txt in zip(chunk, d_out):
+                m = re.match(r"\(\s*(true|false)\s*,\s*\[(.*)\]\s*\)", txt, re.S)
+                if not m:
+                    raise core.CheckFailure(f"could not read diag_C07 output: {txt[:200]}")
+                rows_bad = [(int(a), b == "true") for a, b in re.findall(r"\((\d+)\s*,\s*(true|false)\)", m.group(2))]
+                diag[i] = (m.group(1) == "true", rows_bad)
+        if len(pick) < len(bad_holds):
+            ctx.notes.append(f"{len(bad_holds)} cases violate P_C07; {len(pick)} of them were diagnosed and reported")
+        bad_holds = sorted(pick)
     for i in bad_holds:
         c, o = cases[i], outs[i]
         ffmt_ok, rows_bad = diag.get(i, (None, []))
